@@ -551,3 +551,78 @@ def straight_line_value(stmts, expr, depth: int = 8):
                 return n
         return X().visit(copy.deepcopy(e))
     return at(len(flat), expr, depth)
+
+
+class Sym(str):
+    """an unknown string value inside ``eval_string_parts`` results"""
+
+    def __repr__(self):
+        return f"<{str(self)}>"
+
+
+def eval_string_parts(stmts, truth: dict, result=None):
+    """Straight-line evaluation of string-building code: plain / augmented assignments to local names, conditional expressions
+    and `a or b` decided by ``truth`` (normalised text -> bool), f-strings and `+` concatenation.  -> the parts (constants merged,
+    unknown values as Sym(text)) of the value returned (or of local ``result`` at the end); None when something else occurs."""
+    from . import booleval
+    vals = {}
+
+    def merge(parts):
+        out = []
+        for p_ in parts:
+            if not isinstance(p_, Sym) and out and not isinstance(out[-1], Sym):
+                out[-1] = out[-1] + p_
+            elif p_ != "" or isinstance(p_, Sym):
+                out.append(p_)
+        return out
+
+    def ev(e):
+        if isinstance(e, ast.Constant) and isinstance(e.value, str):
+            return [e.value]
+        if isinstance(e, ast.Name):
+            return list(vals[e.id]) if e.id in vals else [Sym(e.id)]
+        if isinstance(e, ast.BinOp) and isinstance(e.op, ast.Add):
+            a, b = ev(e.left), ev(e.right)
+            return None if a is None or b is None else merge(a + b)
+        if isinstance(e, ast.JoinedStr):
+            out = []
+            for v in e.values:
+                if isinstance(v, ast.Constant):
+                    out.append(str(v.value))
+                elif isinstance(v, ast.FormattedValue) and v.conversion == -1 and v.format_spec is None:
+                    r = ev(v.value)
+                    if r is None:
+                        return None
+                    out.extend(r)
+                else:
+                    return None
+            return merge(out)
+        if isinstance(e, ast.IfExp):
+            t = booleval.ev(e.test, truth)
+            return None if t is None else ev(e.body if t else e.orelse)
+        if isinstance(e, ast.BoolOp) and isinstance(e.op, ast.Or) and len(e.values) == 2:
+            t = booleval.ev(e.values[0], truth)
+            return None if t is None else ev(e.values[0] if t else e.values[1])
+        if isinstance(e, ast.Call):
+            return [Sym(A.norm(e))]
+        return None
+    for st in stmts:
+        if isinstance(st, ast.Assign) and len(st.targets) == 1 and isinstance(st.targets[0], ast.Name):
+            r = ev(st.value)
+            if r is None:
+                return None
+            vals[st.targets[0].id] = r
+        elif isinstance(st, ast.Assign) and len(st.targets) == 1 and isinstance(st.targets[0], ast.Tuple) and isinstance(st.value, ast.Call):
+            continue  # unpacking of a call result: the names stay symbols
+        elif isinstance(st, ast.AugAssign) and isinstance(st.op, ast.Add) and isinstance(st.target, ast.Name):
+            r = ev(st.value)
+            if r is None:
+                return None
+            vals[st.target.id] = merge(vals.get(st.target.id, [Sym(st.target.id)]) + r)
+        elif isinstance(st, ast.Return):
+            return ev(st.value) if st.value is not None else None
+        elif isinstance(st, (ast.Pass, ast.FunctionDef)) or (isinstance(st, ast.Expr) and isinstance(st.value, ast.Constant)):
+            continue
+        else:
+            return None
+    return vals.get(result) if result else None
